@@ -221,6 +221,32 @@ func (p *Path) assume(c *Term) {
 	p.npc++
 }
 
+// assumeChecked adds c like assume, and keeps the path's model a model of the
+// whole path condition: if the current model does not satisfy c a new one is
+// asked for (needed when c ties a fresh variable to earlier ones, as the
+// functional-consistency constraints of the uninterpreted-function stubs do).
+func (p *Path) assumeChecked(c *Term) {
+	if c.IsTrue() {
+		return
+	}
+	if c.IsFalse() {
+		panic(abortPath{"infeasible", "assume(false)"})
+	}
+	if p.pos >= len(p.prefix) && !p.evalBool(c) {
+		r, m := p.check(c)
+		switch r {
+		case "sat":
+			p.model = m
+			p.newEval()
+		case "unsat":
+			panic(abortPath{"infeasible", "stub constraint"})
+		default:
+			p.inconclusive("solver-unknown at a stub constraint " + p.where())
+		}
+	}
+	p.assume(c)
+}
+
 // check asks whether PC ∧ c is satisfiable; on sat returns a model.
 func (p *Path) check(c *Term) (string, Model) {
 	if c.IsFalse() {
